@@ -323,7 +323,8 @@ def run_annulus(case, obs):
     area = ann.area
     exp_area = outer.area - inner.area
     an = geom.analytic_area(ann)
-    obs.check(area == exp_area and abs(area - an) <= 1e-12 * max(abs(an), outer.area), 'annulus-area-not-difference',
+    prec = max([float(np.finfo(type(getattr(ann, p))).eps) for p in ann._params if isinstance(getattr(ann, p), np.floating)] + [1e-13])
+    obs.check(area == exp_area and abs(area - an) <= 16 * prec * max(abs(an), float(outer.area)), 'annulus-area-not-difference',
               f'{name}: area {area!r}, outer-inner {exp_area!r}, analytic {an!r}', 'annulus-area')
     bb = ann.bounding_box
     if bb.shape[0] * bb.shape[1] <= 250000:
